@@ -189,34 +189,47 @@ Theorem c20_multi_get_old_partial : forall cmp kc orig n arr,
 Proof. exact multi_get_old_partial. Qed.
 Print Assumptions c20_multi_get_old_partial.
 
-(* Batcher shutdown at goroutine granularity (Add = closed-check + channel send; Run = receive / timer / close branch
-   with its drain loop; Close), callC of any capacity > 0, any linger / count limit, EVERY interleaving:
-   the calls whose Add has started are, as a multiset, the completed ones plus the ones still on their way -- nobody
-   completes twice. *)
+(* Batcher shutdown at goroutine granularity (Add = increment of [adding], closed-check, channel send or failCall,
+   decrement; Run = receive / timer / close branch with its drain loop; Close), callC of any capacity > 0, any linger /
+   count limit, EVERY interleaving, either drain rule: the calls whose Add has started are, as a multiset, the
+   completed ones plus the ones still on their way -- nobody completes twice. *)
 Theorem c20_each_call_completes_at_most_once_with_close : forall cfg, 0 < ShutdownModel.sd_cap cfg -> forall evs,
-  Permutation (ShutdownModel.sd_checked evs)
+  Permutation (ShutdownModel.sd_submitted evs)
     (ShutdownProofs.done_ids (snd (ShutdownModel.sd_run cfg ShutdownModel.sd_init evs)) ++
      ShutdownModel.sd_pending (fst (ShutdownModel.sd_run cfg ShutdownModel.sd_init evs))).
 Proof. exact ShutdownProofs.sd_conservation. Qed.
 Print Assumptions c20_each_call_completes_at_most_once_with_close.
 
-(* ... and exactly once, once Run has returned, when no Add was between its closed-check and its send at the moment of
-   Close (Add happens before Close -- queued, or parked in the channel's send queue -- or after it). *)
-Theorem c20_each_call_completes_exactly_once_with_close : forall cfg, 0 < ShutdownModel.sd_cap cfg -> forall evs,
-  ShutdownModel.sd_overlapped (fst (ShutdownModel.sd_run cfg ShutdownModel.sd_init evs)) = false ->
+(* The code as it is (Run's drain loop returns only when it reads adding == 0): once Run has returned and every started
+   Add has returned, every call whose Add started has completed exactly once -- no hypothesis on how Add, Run and Close
+   interleave. *)
+Theorem c20_each_call_completes_exactly_once_with_close : forall cfg, 0 < ShutdownModel.sd_cap cfg ->
+  ShutdownModel.sd_wait_for_adders cfg = true -> forall evs,
   ShutdownModel.sd_run_done (fst (ShutdownModel.sd_run cfg ShutdownModel.sd_init evs)) = true ->
-  Permutation (ShutdownModel.sd_checked evs)
+  ShutdownModel.sd_adds_returned (fst (ShutdownModel.sd_run cfg ShutdownModel.sd_init evs)) ->
+  Permutation (ShutdownModel.sd_submitted evs)
     (ShutdownProofs.done_ids (snd (ShutdownModel.sd_run cfg ShutdownModel.sd_init evs))).
 Proof. exact ShutdownProofs.sd_exactly_once_with_close. Qed.
 Print Assumptions c20_each_call_completes_exactly_once_with_close.
 
-(* The remaining overlap in the code as it is: Add passes the check, Close, Run drains an empty queue and returns, Add
-   enqueues: the call is never completed (a liveness gap; not observed on the real batcher unless the adder is
-   pre-empted exactly between the two statements). *)
-Theorem c20_add_overlapping_close_never_completes_refuted :
-  exists cfg evs, 0 < ShutdownModel.sd_cap cfg /\
+(* The code as it was found (Run returns as soon as the queue is empty): Add passes the closed check, Close, Run drains
+   an empty queue and returns, Add enqueues and returns -- the call is never completed (reproduced on the real batcher,
+   fixed by commit cb6e33f). *)
+Theorem c20_each_call_completes_exactly_once_with_close_old_refuted :
+  exists cfg evs, 0 < ShutdownModel.sd_cap cfg /\ ShutdownModel.sd_wait_for_adders cfg = false /\
     let (s, o) := ShutdownModel.sd_run cfg ShutdownModel.sd_init evs in
-    ShutdownModel.sd_run_done s = true /\ ShutdownModel.sd_inflight s = [] /\ ShutdownModel.sd_parked s = [] /\
-    ShutdownModel.sd_q s = [1%N] /\ ShutdownProofs.done_ids o = [] /\ ShutdownModel.sd_overlapped s = true.
-Proof. exact ShutdownProofs.sd_overlap_never_completes_refuted. Qed.
-Print Assumptions c20_add_overlapping_close_never_completes_refuted.
+    ShutdownModel.sd_run_done s = true /\ ShutdownModel.sd_adds_returned s /\ ShutdownModel.sd_q s = [1%N] /\
+    ShutdownModel.sd_submitted evs = [1%N] /\ ShutdownProofs.done_ids o = [].
+Proof. exact ShutdownProofs.sd_old_drain_rule_refuted. Qed.
+Print Assumptions c20_each_call_completes_exactly_once_with_close_old_refuted.
+
+(* what held of the old rule (and holds of both): exactly once when no Add was between its closed-check and its send at
+   the moment of Close *)
+Theorem c20_each_call_completes_exactly_once_old_partial : forall cfg, 0 < ShutdownModel.sd_cap cfg -> forall evs,
+  ShutdownModel.sd_overlapped (fst (ShutdownModel.sd_run cfg ShutdownModel.sd_init evs)) = false ->
+  ShutdownModel.sd_run_done (fst (ShutdownModel.sd_run cfg ShutdownModel.sd_init evs)) = true ->
+  ShutdownModel.sd_adds_returned (fst (ShutdownModel.sd_run cfg ShutdownModel.sd_init evs)) ->
+  Permutation (ShutdownModel.sd_submitted evs)
+    (ShutdownProofs.done_ids (snd (ShutdownModel.sd_run cfg ShutdownModel.sd_init evs))).
+Proof. exact ShutdownProofs.sd_exactly_once_no_overlap. Qed.
+Print Assumptions c20_each_call_completes_exactly_once_old_partial.
